@@ -1,5 +1,6 @@
-(* C14 correspondence: the model on a case vs. what the real create_transport /
-   TransportDescriptorParser.parse_parameter_strings did on it.
+(* C14 correspondence: what the real create_transport / TransportDescriptorParser.parse_parameter_strings
+   did on a case must be a member of the set of outcomes the model allows for it (Model.allowed:
+   the code's pinned behaviour, plus what the property leaves open).
 
    The library functions of the model (int(), int(.,16), float(), host syntax) are instantiated by
    finite answer tables the harness fills with the REAL functions' answers to the questions
@@ -68,21 +69,32 @@ Definition case_queries (E : list entry) (q : qcase) : list (N * str) :=
 Definition flat_queries (E : list entry) (q : qcase) : list N :=
   flat_map (fun ks => fst ks :: N.of_nat (List.length (snd ks)) :: snd ks) (case_queries E q).
 
+Definition covered (E : list entry) (c : case) : bool :=
+  let '(m, s, d, L, _) := c in
+  forallb (answered L) ((3, ip_localhost) :: case_queries E (m, s, d)).
+
+Definition obs_of_parse (r : res dict) : obs := match r with Ok ps => ODict ps | Err => OErr end.
+Definition obs_of_create (r : res transport) : obs :=
+  match r with Ok t => OTransport (kind_code (tr_kind t)) (tr_args t) | Err => OErr end.
+
+(* what the code does today (first element of the allowed set) - shown in reports *)
 Definition model_out (E : list entry) (c : case) : obs :=
   let '(m, s, d, L, _) := c in
-  if negb (forallb (answered L) ((3, ip_localhost) :: case_queries E (m, s, d))) then OUncovered
+  if negb (covered E c) then OUncovered
   else
     match m with
-    | MParse T =>
-        match parse (l_int L) (l_hex L) (l_float L) T d s with
-        | Ok ps => ODict ps
-        | Err => OErr
-        end
-    | MCreate =>
-        match create (l_int L) (l_hex L) (l_float L) (l_host L) ip_localhost E d s with
-        | Ok t => OTransport (kind_code (tr_kind t)) (tr_args t)
-        | Err => OErr
-        end
+    | MParse T => obs_of_parse (parse (l_int L) (l_hex L) (l_float L) T d s)
+    | MCreate => obs_of_create (create (l_int L) (l_hex L) (l_float L) (l_host L) ip_localhost E d s)
+    end.
+
+(* every outcome the property allows on this case (Model.allowed / Model.allowed_parse) *)
+Definition model_allowed (E : list entry) (c : case) : list obs :=
+  let '(m, s, d, L, _) := c in
+  if negb (covered E c) then [OUncovered]
+  else
+    match m with
+    | MParse T => map obs_of_parse (allowed_parse (l_int L) (l_hex L) (l_float L) T d s)
+    | MCreate => map obs_of_create (allowed (l_int L) (l_hex L) (l_float L) (l_host L) ip_localhost E d s)
     end.
 
 Definition value_eqb (a b : value) : bool :=
@@ -112,5 +124,6 @@ Definition obs_agree (model impl : obs) : bool :=
   | _, _ => false
   end.
 
+(* the observed outcome must be one of the allowed ones *)
 Definition check_case (E : list entry) (c : case) : bool :=
-  let '(_, _, _, _, o) := c in obs_agree (model_out E c) o.
+  let '(_, _, _, _, o) := c in existsb (fun m => obs_agree m o) (model_allowed E c).
